@@ -6,6 +6,7 @@
 package main
 
 import (
+	"encoding/json"
 	"flag"
 	"fmt"
 	"os"
@@ -33,6 +34,14 @@ func main() {
 		cmdDump(os.Args[2:])
 	case "funcs":
 		cmdFuncs(os.Args[2:])
+	case "describe":
+		out := map[string]map[string]string{}
+		for _, id := range props.IDs() {
+			ck := props.Get(id)
+			out[id] = map[string]string{"decides": ck.Decides, "not_decided": ck.NotDecided}
+		}
+		b, _ := json.MarshalIndent(out, "", " ")
+		fmt.Println(string(b))
 	default:
 		fmt.Fprintln(os.Stderr, "unknown command", os.Args[1])
 		os.Exit(2)
